@@ -53,6 +53,10 @@ def corpus(rep):
     for lab, m in readcheck.havoc(frag, rng, 150 if quick else 1500) + readcheck.truncations(frag, 11 if quick else 1):
         cases.append(("frag:" + lab, {"data": init, "frag": m}))
     cases += readcheck.trun_bombs(init)[::3]
+    # the metadata corpus of C18 (every tag subset, 64-bit headers on metadata boxes, edge forms of year / poster items incl. empty payloads)
+    import check_c18
+    for name, data, _ in check_c18.cases(random.Random(rep.seed * 7919 + 18), rep.tier):
+        cases.append(("c18:" + name, {"data": data}))
     # generated fragmented movies (several track fragments of one track in a movie fragment, missing trun / tfdt, three base modes),
     # as one stream and as init + media segment, with boundary substitutions into every field of the moof boxes
     for name, finit, m1, m0, fields in readcheck.valid_fragmented(rng, 6 if quick else 40):
